@@ -933,6 +933,44 @@ def kept(e):
     return {k: v for k, v in e.items() if k in KEEP}
 
 
+def big_integer_x_events(ctx, events):
+    """Polynomials at integer-typed x whose powers exceed the int64 range (|x|^degree > 2^63): integer time
+    stamps, event indices.  The value must still be sum a_i x^i (the exact rational, compared at
+    1e-12 relative with the condition of the sum) - a silent wrap-around of an integer power is a wrong
+    answer, not a refusal.  Too large for TLC's integers, so the verdict is a flag judged by the
+    harness' exact arithmetic."""
+    from fractions import Fraction
+
+    from scippneutron.peaks import model as M
+
+    cases = [(2, 3_100_000_000, [1.0, -2.0, 0.5]), (4, 58_000, [0.5, 1.0, -3.0, 2.0, 1.5]),
+             (5, 7_000, [1.0, 0.0, 2.0, -1.0, 0.25, 3.0]), (6, 1_500, [2.0, 1.0, 0.0, 0.5, -1.0, 1.0, 0.75]),
+             (3, -2_200_000, [4.0, 1.0, -2.0, 0.5])]
+    for deg, xbig, coefs in cases:
+        for prefix in ('', 'bkg_'):
+            m = M.PolynomialModel(degree=deg, prefix=prefix)
+            xs = [xbig, xbig + 1, -xbig, 3]
+            x = sc.array(dims=['x'], values=xs, unit='us', dtype='int64')
+            params = {f'{prefix}a{i}': sc.scalar(c, unit=sc.Unit('K') / sc.Unit('us') ** i) for i, c in enumerate(coefs)}
+            ev = {'ev': 'flags', 'tid': 0, 'what': 'big_integer_x', 'kind': 'poly', 'out': 'ok', 'flags': [],
+                  'types': ['int64', 'float64']}
+            try:
+                got = m(x, **params).values
+                ok = True
+                for xv, gv in zip(xs, got, strict=True):
+                    terms = [Fraction(c) * Fraction(xv) ** i for i, c in enumerate(coefs)]
+                    want = sum(terms)
+                    cond = sum(abs(t) for t in terms)
+                    if not math.isfinite(float(gv)) or abs(Fraction(float(gv)) - want) > cond * Fraction(1, 10**12):
+                        ok = False
+                ev['flags'].append(['polynomial_is_not_sum_a_i_x_i_for_large_integer_x', bool(ok)])
+            except Exception as exc:  # noqa: BLE001
+                ev['out'] = 'refused'
+                ev['exc'] = type(exc).__name__
+            events.append(ev)
+            ctx.case(nontrivial_id=('bigx', deg, xbig, prefix))
+
+
 def run(ctx):
     import warnings
     from concurrent.futures import ThreadPoolExecutor
@@ -1031,6 +1069,7 @@ def run(ctx):
     for k, coefs in enumerate(poly_vectors(ctx)):
         for v in ({**plain, 'xd': 'int64', 'pd': 'int64'}, {**plain, 'xd': 'float64', 'pd': 'float64'}, next_variant()):
             record(lambda evs, coefs=coefs, k=k, v=v: poly_case(ctx, evs, coefs, k, v))
+    big_integer_x_events(ctx, events)
     ustart = len(events)
     units_part(ctx, events, ucases)
     for i in range(ustart, len(events)):
